@@ -91,6 +91,23 @@ impl Scenario for Dens {
         if sparse_huge {
             spec.m = rng.log_range(1500, 6000) as usize;
         }
+        if rng.chance(0.0004) {
+            // more bins than a 16-bit index can address (sizes around 2^16 and beyond), a third to all of them populated
+            spec.m = *rng.pick(&[65_535usize, 65_536, 65_537, 66_000, 70_537, 90_001]);
+            if rng.chance(0.5) {
+                spec.m = rng.range(65_537, 100_000) as usize;
+            }
+            let n = rng.range(spec.m as u64 / 3, spec.m as u64);
+            let items: Vec<u64> = (0..n).map(|_| if spec.elem == ElemT::U32 { rng.u64() & 0xffff_ffff } else { rng.u64() >> 2 }).collect();
+            let ops = if rng.chance(0.5) {
+                vec![DOp::Slice(items)]
+            } else {
+                let mut o: Vec<DOp> = items.into_iter().map(DOp::Item).collect();
+                o.push(DOp::End);
+                o
+            };
+            return DensPlan { spec, ops, planted_ties: 0 };
+        }
         if rng.chance(0.004) {
             // one long slice (thousands of items, any length) against the item-wise twin
             spec.m = rng.log_range(16, 512) as usize;
